@@ -1,4 +1,7 @@
-// vh: the verification harness. vh <property> gen|impl
+// vh: the verification harness.
+//
+//	vh <Cnn> gen   – write the operation list for property Cnn (seed: VERIF_SEED, tier: VERIF_TIER)
+//	vh <Cnn> impl  – read operations on stdin, run each on the real relic code, one result line each
 package main
 
 import (
@@ -7,8 +10,38 @@ import (
 	"os"
 
 	"verifharness/c12"
+	"verifharness/c20"
 	"verifharness/hx"
+	"verifharness/pe"
 )
+
+type genFunc func(w *bufio.Writer, seed uint64, tier string)
+
+// handlers: first token of an op line -> implementation runner
+var handlers = map[string]func([]string) string{
+	"C12": c12.Handle,
+	"C20": c20.Handle,
+	"PE":  pe.Handle,
+}
+
+// gens: property -> generators whose ops make up its correspondence run
+var gens = map[string][]genFunc{
+	"C12": {c12.Gen},
+	"C20": {c20.Gen},
+}
+
+// customImpl: properties whose runner owns the whole input loop (e.g. to run ops concurrently)
+var customImpl = map[string]func(){}
+
+func forProp(prop string, g func(*bufio.Writer, uint64, string, string)) genFunc {
+	return func(w *bufio.Writer, seed uint64, tier string) { g(w, seed, tier, prop) }
+}
+
+func init() {
+	for _, p := range []string{"C01", "C02", "C03", "C05", "C08", "C11"} {
+		gens[p] = append(gens[p], forProp(p, pe.Gen))
+	}
+}
 
 func main() {
 	if len(os.Args) < 3 {
@@ -16,16 +49,39 @@ func main() {
 		os.Exit(2)
 	}
 	prop, cmd := os.Args[1], os.Args[2]
-	w := bufio.NewWriterSize(os.Stdout, 1<<20)
-	defer w.Flush()
-	switch prop + " " + cmd {
-	case "C12 gen":
-		c12.Gen(w, hx.Seed(), hx.Tier())
-	case "C12 impl":
+	switch cmd {
+	case "gen":
+		gs := gens[prop]
+		if gs == nil {
+			fmt.Fprintln(os.Stderr, "no generator for", prop)
+			os.Exit(2)
+		}
+		w := bufio.NewWriterSize(os.Stdout, 1<<20)
+		for _, g := range gs {
+			g(w, hx.Seed(), hx.Tier())
+		}
 		w.Flush()
-		c12.Impl()
+	case "impl":
+		if f := customImpl[prop]; f != nil {
+			f()
+			return
+		}
+		hx.Dispatch(handlers)
 	default:
-		fmt.Fprintln(os.Stderr, "unknown", prop, cmd)
-		os.Exit(2)
+		if !extra(prop, cmd, os.Args[3:]) {
+			fmt.Fprintln(os.Stderr, "unknown", prop, cmd)
+			os.Exit(2)
+		}
 	}
+}
+
+// extra sub-commands registered by individual properties (e.g. C13 scenario drivers)
+var extras = map[string]func(args []string){}
+
+func extra(prop, cmd string, args []string) bool {
+	if f := extras[prop+" "+cmd]; f != nil {
+		f(args)
+		return true
+	}
+	return false
 }
